@@ -25,6 +25,7 @@ import SSEPyVerif.Proofs.Schemes.DP17
 import SSEPyVerif.Proofs.Schemes.ChainComplete
 import SSEPyVerif.Proofs.Schemes.CT14Complete
 import SSEPyVerif.Proofs.Schemes.PiPtrComplete
+import SSEPyVerif.Proofs.Schemes.DP17Room
 namespace SSEPy.C01
 open SSEPy.Sch SSEPy.Sch.Chain
 
@@ -389,5 +390,20 @@ theorem PiPtr.setup_never_raises (raw : RawCfg) (cfg : PiPtrCfg) (hcfg : PiPtr.c
     (hsample : ∀ sample t0, takeNats t = .ok (sample, t0) → ∀ p ∈ sample, p < PiPtr.arrayLen cfg db)
     (e : Err) (h : PiPtr.setup cfg lv K db t = .error e) : e = .miss :=
   PiPtr.setup_onlyMiss cfg lv hl (PiPtr.cfgBuild_usable cfg raw hcfg hout) K hK db t hsample e h
+
+/-- DP17: THERE IS ALWAYS ROOM — `random.choice` never sees an empty list of buckets.  Level `i` is an array of
+    `2N + 2^(i+1)` cells in buckets of `2^(i+1)`; while fewer than `N` postings are stored on it, some bucket has at least
+    `2^i` free cells (if all had fewer, the free cells would add up to less than `N + 2^(i+1)`, but `2N + 2^(i+1)` cells
+    minus at most `N` stored ones are free).  So over the whole of `_Enc`, for every database and every recorded choice,
+    an IndexError cannot come from the placement — the hypotheses only exclude the two OTHER sources of an IndexError in
+    `_Enc` (the level search and the hash-table update).  This is what the constant `2N + 2^(i+1)` is for.  Partial with
+    respect to "EDBSetup never raises". -/
+theorem DP17.room_for_every_chunk_partial (cfg : DP17Cfg) (lv : Leaves) (k1 k2 : Bytes) (levels : List Int) (db : DB)
+    (ls0 : List Level) (t : Tape) (hinit : DP17.initLevels db.total levels [] = .ok ls0)
+    (hfa : ∀ p ∈ db, ∃ i : Nat, DP17.findAdjacent cfg levels p.2.length = .ok (i : Int))
+    (hht : ∀ w count i x c HT e, DP17.htInsert cfg lv k1 k2 w count i x c HT = .error e → e ≠ .indexError) :
+    ∀ e, DP17.encDb cfg lv k1 k2 levels db ls0 [] t = .error e → e ≠ .indexError :=
+  DP17.encDb_room cfg lv db.total k1 k2 levels db 0 ls0 [] t
+    (DP17.initLevels_linv db.total levels [] ls0 hinit (fun l hl => by cases hl)) (by omega) hfa hht
 
 end SSEPy.C01
